@@ -32,5 +32,9 @@ def stable_qr(mat):
         # force zero diagonals to have jitter added to them.
         Rdiag_sign[Rdiag_sign == 0] = 1.0
         jitter_diag = 1e-6 * Rdiag_sign * zeroish.to(Rdiag)
-        R = R + torch.diag_embed(jitter_diag)
+        jitter = torch.diag_embed(jitter_diag)
+        if R.shape[-1] != jitter.shape[-1]:
+            # R of a wide matrix is k x n: the jitter goes on its leading k x k block
+            jitter = torch.nn.functional.pad(jitter, (0, R.shape[-1] - jitter.shape[-1]))
+        R = R + jitter
     return Q, R
